@@ -8,6 +8,7 @@ package main
 // before and after, the result is projected.
 
 import (
+	"reflect"
 	"bufio"
 	"bytes"
 	"encoding/json"
@@ -51,54 +52,54 @@ type corrDef struct {
 }
 
 type corrResult struct {
-	NSigs       int        `json:"nsigs"`
-	NStamps     int        `json:"nstamps"`
-	D           bool       `json:"D"`
-	NewUUID     bool       `json:"newuuid"`  // envelope and document identifiers differ from the source's and are set
-	HasCode     bool       `json:"hascode"`
-	Type        string     `json:"type"`
-	Series      string     `json:"series"`
-	IssueDate   string     `json:"issue_date"`
-	NPreceding  int        `json:"npreceding"`
-	PreUUID     string     `json:"pre_uuid"`
-	PreType     string     `json:"pre_type"`
-	PreSeries   string     `json:"pre_series"`
-	PreCode     string     `json:"pre_code"`
-	PreDate     string     `json:"pre_date"`
-	PreReason   string     `json:"pre_reason"`
-	PreExt      []string   `json:"pre_ext"`
-	PreStamps   []string   `json:"pre_stamps"`
-	PreHasTax   bool       `json:"pre_hastax"`
-	PreTaxSame  bool       `json:"pre_taxsame"` // preceding.tax equals the source's tax summary
-	Valid       bool       `json:"valid"`       // the result validates
-	Business    string     `json:"business"`    // fingerprint of the business content
+	NSigs      int      `json:"nsigs"`
+	NStamps    int      `json:"nstamps"`
+	D          bool     `json:"D"`
+	NewUUID    bool     `json:"newuuid"` // envelope and document identifiers differ from the source's and are set
+	HasCode    bool     `json:"hascode"`
+	Type       string   `json:"type"`
+	Series     string   `json:"series"`
+	IssueDate  string   `json:"issue_date"`
+	NPreceding int      `json:"npreceding"`
+	PreUUID    string   `json:"pre_uuid"`
+	PreType    string   `json:"pre_type"`
+	PreSeries  string   `json:"pre_series"`
+	PreCode    string   `json:"pre_code"`
+	PreDate    string   `json:"pre_date"`
+	PreReason  string   `json:"pre_reason"`
+	PreExt     []string `json:"pre_ext"`
+	PreStamps  []string `json:"pre_stamps"`
+	PreHasTax  bool     `json:"pre_hastax"`
+	PreTaxSame bool     `json:"pre_taxsame"` // preceding.tax equals the source's tax summary
+	Valid      bool     `json:"valid"`       // the result validates
+	Business   string   `json:"business"`    // fingerprint of the business content
 }
 
 type corrEvent struct {
-	K       string     `json:"k"` // correct | replicate
-	Src     string     `json:"src"`
-	Path    string     `json:"path"` // lib | bulk | cli
-	Combo   corrCombo  `json:"combo"`
-	Defs    []corrDef  `json:"defs"` // regime definition first, then each addon's
-	SrcUUID string     `json:"src_uuid"`
-	SrcType string     `json:"src_type"`
-	SrcSeries string   `json:"src_series"`
-	SrcCode string     `json:"src_code"`
-	SrcDate string     `json:"src_date"`
-	SrcStamps []string `json:"src_stamps"` // providers of the stamps in the source header
-	SrcBusiness string `json:"src_business"`
-	SrcHasTax bool `json:"src_hastax"`
-	Today   string     `json:"today"`
-	ReqSeries string   `json:"req_series"`
-	ReqDate string     `json:"req_date"`
-	ReqExt  []string   `json:"req_ext"`   // keys supplied
-	ReqStamps []string `json:"req_stamps"`
-	Ok      bool       `json:"ok"`
-	Panic   bool       `json:"panic"`
-	Err     string     `json:"err"`
-	SourceIntact bool  `json:"source_intact"`
-	ValidationRefusal bool `json:"validation_refusal"` // refused because the result does not validate
-	R       corrResult `json:"r"`
+	K                 string     `json:"k"` // correct | replicate
+	Src               string     `json:"src"`
+	Path              string     `json:"path"` // lib | bulk | cli
+	Combo             corrCombo  `json:"combo"`
+	Defs              []corrDef  `json:"defs"` // regime definition first, then each addon's
+	SrcUUID           string     `json:"src_uuid"`
+	SrcType           string     `json:"src_type"`
+	SrcSeries         string     `json:"src_series"`
+	SrcCode           string     `json:"src_code"`
+	SrcDate           string     `json:"src_date"`
+	SrcStamps         []string   `json:"src_stamps"` // providers of the stamps in the source header
+	SrcBusiness       string     `json:"src_business"`
+	SrcHasTax         bool       `json:"src_hastax"`
+	Today             string     `json:"today"`
+	ReqSeries         string     `json:"req_series"`
+	ReqDate           string     `json:"req_date"`
+	ReqExt            []string   `json:"req_ext"` // keys supplied
+	ReqStamps         []string   `json:"req_stamps"`
+	Ok                bool       `json:"ok"`
+	Panic             bool       `json:"panic"`
+	Err               string     `json:"err"`
+	SourceIntact      bool       `json:"source_intact"`
+	ValidationRefusal bool       `json:"validation_refusal"` // refused because the result does not validate
+	R                 corrResult `json:"r"`
 }
 
 func defOf(cd *tax.CorrectionDefinition) corrDef {
@@ -357,7 +358,8 @@ func corrRun(repo, combosFile string, maxSrc int, bulkBin, goblBin string, cliEv
 			if c.State == "signed-stamped" {
 				// the stamps a correction may later require are present in the source header
 				for _, p := range merged.Stamps {
-					env.Head.AddStamp(&head.Stamp{Provider: cbc.Key(p), Value: "stamp-" + p})
+					// values a cleaning step would alter (surrounding and doubled white space): the source must keep them
+					env.Head.AddStamp(&head.Stamp{Provider: cbc.Key(p), Value: "  stamp  " + p + " "})
 				}
 				env.Head.AddStamp(&head.Stamp{Provider: "verif-other", Value: "x"})
 			}
@@ -439,6 +441,37 @@ func corrRun(repo, combosFile string, maxSrc int, bulkBin, goblBin string, cliEv
 			after, _ := json.Marshal(env)
 			lib.SourceIntact = bytes.Equal(before, after)
 			w.Emit(lib)
+			// ---- library, options given as one JSON object (what the command line and bulk entry points pass on);
+			// afterwards the correction is edited in place: the source must not notice either
+			ld := ev
+			ld.Path = "lib-data"
+			func() {
+				defer func() {
+					if p := recover(); p != nil {
+						ld.Panic, ld.Err = true, fmt.Sprint(p)
+					}
+				}()
+				src := new(gobl.Envelope)
+				if err := json.Unmarshal(before, src); err != nil {
+					ld.Err = "reparse: " + err.Error()
+					return
+				}
+				b0, _ := json.Marshal(src)
+				res, err := src.Correct(bill.WithData(optsJSON))
+				if err != nil {
+					ld.Err = err.Error()
+				} else {
+					ld.Ok = true
+					ld.R = projectCorr(res, src, inv)
+					taint(reflect.ValueOf(res.Extract()), map[uintptr]bool{}, 0)
+					if res.Head != nil {
+						taint(reflect.ValueOf(res.Head), map[uintptr]bool{}, 0)
+					}
+				}
+				b1, _ := json.Marshal(src)
+				ld.SourceIntact = bytes.Equal(b0, b1)
+			}()
+			w.Emit(ld)
 			// ---- replicate (once per source state)
 			if c.Type == "credit-note" && !c.Reason && !c.Ext && !c.Stamps && !c.Series && !c.Date && !c.CopyTax {
 				rep := ev
